@@ -26,26 +26,33 @@ var refCodecs = map[string]frame.RawCodec{
 
 const hdrLen = 9
 
-// splitFrames cuts complete v3+ frames (9-byte header) off the front of buf.
+// splitFrames cuts complete frames off the front of buf (9-byte header from v3 on, 8 bytes for v1/v2).
 func splitFrames(buf *[]byte) [][]byte {
 	var out [][]byte
 	for {
 		b := *buf
-		if len(b) < hdrLen {
+		if len(b) < 1 {
 			return out
 		}
-		n := int(binary.BigEndian.Uint32(b[5:9]))
+		hl := hdrLen
+		if b[0]&0x7f < 3 {
+			hl = 8
+		}
+		if len(b) < hl {
+			return out
+		}
+		n := int(binary.BigEndian.Uint32(b[hl-4 : hl]))
 		if n < 0 || n > 256<<20 {
 			// garbage length: hand the rest over as one blob so the caller can fail on it
 			out = append(out, b)
 			*buf = nil
 			return out
 		}
-		if len(b) < hdrLen+n {
+		if len(b) < hl+n {
 			return out
 		}
-		out = append(out, b[:hdrLen+n:hdrLen+n])
-		*buf = b[hdrLen+n:]
+		out = append(out, b[:hl+n:hl+n])
+		*buf = b[hl+n:]
 		if len(*buf) == 0 {
 			*buf = nil
 		}
